@@ -408,7 +408,7 @@ func (ex *Exec) assume(c *Term) {
 		return
 	}
 	if c.IsFalse() {
-		ex.end(endInfeasible, "assumption false")
+		ex.end(endInfeasible, "assumption false at %s", ex.P.pos(ex.curPos))
 	}
 	if v, ok := ex.knownValue(c); ok && v {
 		return
